@@ -321,8 +321,9 @@ class SceneGraph:
 
                 # get the matrix from this edge
                 matrix = node_edge["matrix"]
-                # only include if it's not an identify matrix
-                if not util.allclose(matrix, _identity):
+                # only leave the matrix out if it IS the identity: a matrix
+                # that is merely close to it places a part in a small scene
+                if not np.array_equal(matrix, _identity):
                     info["matrix"] = matrix.T.reshape(-1).tolist()
 
                 # if an extra was stored on this edge
